@@ -167,7 +167,7 @@ func main() {
 				}
 			}
 			// (c) reset functions for package-level maps (registries, caches) declared in this file
-			var resetSrc []string
+			var resetSrc, snapSrc []string
 			for _, d := range f.Decls {
 				gd, ok := d.(*ast.GenDecl)
 				if !ok || gd.Tok != token.VAR {
@@ -187,15 +187,25 @@ func main() {
 							if isSyncComposite(vs.Values[vi]) {
 								continue
 							}
+							if isMapInit(vs.Values[vi]) {
+								// a map (registry, cache): restore a copy of its contents as they were once the
+								// package's init functions had run — they may have pre-populated it
+								snapSrc = append(snapSrc, "{ s := "+hookAlias+".CloneMap("+n.Name+"); fs = append(fs, func() { "+n.Name+" = "+hookAlias+".CloneMap(s) }) }")
+								rep.Resets = append(rep.Resets, pkgName(pkgDir)+"."+n.Name)
+								continue
+							}
 							// restore the initial value by re-evaluating the initialiser
 							var eb bytes.Buffer
 							printer.Fprint(&eb, fset, vs.Values[vi])
 							resetSrc = append(resetSrc, n.Name+" = "+eb.String())
 						case len(vs.Values) == 0 && vs.Type != nil:
-							// no initialiser: the zero value
-							var tb bytes.Buffer
-							printer.Fprint(&tb, fset, vs.Type)
-							resetSrc = append(resetSrc, n.Name+" = *new("+tb.String()+")")
+							// no initialiser: the value the variable has once the package's init functions have
+							// run (it may be set up there), captured at the first ResetAll — not the zero value
+							if _, isMap := vs.Type.(*ast.MapType); isMap {
+								snapSrc = append(snapSrc, "{ s := "+hookAlias+".CloneMap("+n.Name+"); fs = append(fs, func() { "+n.Name+" = "+hookAlias+".CloneMap(s) }) }")
+							} else {
+								snapSrc = append(snapSrc, "{ s := "+n.Name+"; fs = append(fs, func() { "+n.Name+" = s }) }")
+							}
 						default:
 							continue
 						}
@@ -203,7 +213,7 @@ func main() {
 					}
 				}
 			}
-			if hooks > 0 || len(resetSrc) > 0 {
+			if hooks > 0 || len(resetSrc) > 0 || len(snapSrc) > 0 {
 				addImport(f, hookAlias, shimPath)
 				changed = true
 			}
@@ -220,6 +230,13 @@ func main() {
 					buf.WriteString("\t\t" + r + "\n")
 				}
 				buf.WriteString("\t})\n}\n")
+			}
+			if len(snapSrc) > 0 {
+				buf.WriteString("\n\nfunc init() {\n\t" + hookAlias + ".RegisterSnapshotReset(func() (fs []func()) {\n")
+				for _, r := range snapSrc {
+					buf.WriteString("\t\t" + r + "\n")
+				}
+				buf.WriteString("\t\treturn fs\n\t})\n}\n")
 			}
 			rel := filepath.Join(pkgDir, names[i])
 			dst := filepath.Join(*out, strings.ReplaceAll(rel, "/", "__"))
@@ -266,6 +283,21 @@ func isSyncType(e ast.Expr) bool {
 		if x, ok := s.X.(*ast.Ident); ok && x.Name == "sync" && syncTypeNames[s.Sel.Name] {
 			return true
 		}
+	}
+	return false
+}
+
+// isMapInit reports whether an initialiser expression is make(map[...]...) or a map composite literal.
+func isMapInit(e ast.Expr) bool {
+	switch x := e.(type) {
+	case *ast.CallExpr:
+		if id, ok := x.Fun.(*ast.Ident); ok && id.Name == "make" && len(x.Args) > 0 {
+			_, ok := x.Args[0].(*ast.MapType)
+			return ok
+		}
+	case *ast.CompositeLit:
+		_, ok := x.Type.(*ast.MapType)
+		return ok
 	}
 	return false
 }
